@@ -107,6 +107,8 @@ def relevant(pid, clause, prog):
         return True      # the same build is written by the fresh process: a refusal here is process history
     if pid == 'C06' and prog.get('meta', {}).get('kind') == 'identfile' and clause[:3] in ('C04', 'C05', 'C12'):
         return True      # the IDENT fields of set / object components are judged where they are decoded: by the component grammar
+    if pid == 'C06' and prog.get('meta', {}).get('kind') == 'samplecodes' and clause in ('C03.SlotBytes', 'C08.FdataLength', 'C08.ChannelReprCode'):
+        return True      # the codes of frame-data samples: decoded under the code the channel declares, consuming exactly the record
     if pid == 'C12' and prog.get('meta', {}).get('fringe') and clause[:3] in ('C01', 'C02', 'C03', 'C04', 'C05', 'C07', 'C08', 'C09', 'C16'):
         return True
     return False
